@@ -17,6 +17,7 @@ arbUcurr_entries arbIdx_eq arbIdx_eq_zero propagatorAtArbT_spec propagatorAtArbT
 propagatorAtArbT_at_zero propagatorAtArbT_edge segment_start_value propagatorAtArbT_beyond
 propagatorAtArbT_isSome propagatorAtArbT_is_exp propagatorAtArbT_hasDerivAt
 propagatorAtArbT_tendsto_right source_shape'''.split()
+PINS = ['pinDiagonalize', 'pinPropagatorAtArbT', 'pinConcatenate']
 GEN_SITES = ['einsum:numeric_diagonalize_0', 'einsum:pulse_sequence_PulseSequence_diagonalize_0',
              'einsum:pulse_sequence_PulseSequence_propagator_at_arb_t_0']
 COMPONENTS = ['hamiltonian', 'diagonalize', 'times', 'propagator_at_arb_t']
@@ -173,7 +174,101 @@ def check_times_composed(ctx, case):
                  f'times/duration wrong after: {probs}')
 
 
-CHECKS = {'schroedinger': check_schroedinger, 'times_composed': check_times_composed}
+def check_composed_propagators(ctx, case):
+    """the cached total propagator (read *before* anything diagonalises the result) and the cumulative
+    propagators of pulses produced by concatenation (every cache state of the inputs, with and
+    without frequencies / forced filter functions / pulse correlations), periodic repetition,
+    extension, remapping and slicing equal the time-ordered product of exp(-i H_g dt_g) of the
+    composed Hamiltonian"""
+    from scipy.linalg import expm
+    rng = np.random.default_rng(case['seed'])
+    om = np.linspace(0.1, 3, 4)
+
+    def mk(shared=None):
+        dsc = gens.rand_desc(rng, d=2, n_dt=int(rng.integers(1, 3)), basis=('pauli',), n_n=1, n_c=2,
+                             features=['const_sens'])
+        if shared is not None:
+            dsc['n_opers'], dsc['n_ids'] = shared['n_opers'], shared['n_ids']
+        return dsc
+
+    def state(p, k):
+        if k == 1:
+            p.diagonalize()
+        elif k == 2:
+            p.cache_filter_function(om)
+        elif k == 3:
+            p.cache_filter_function(om)
+            p.cleanup('conservative')
+        return p
+
+    def ref(p):
+        Q = [np.eye(p.d, dtype=complex)]
+        for g in range(len(p.dt)):
+            H = np.tensordot(p.c_coeffs[:, g], p.c_opers, axes=(0, 0))
+            Q.append(expm(-1j*H*p.dt[g]) @ Q[-1])
+        return np.array(Q)
+
+    probs = []
+
+    def ok(p, what):
+        R = ref(p)
+        tp = p.total_propagator        # first: the value the composition cached (if any)
+        if not np.allclose(tp, R[-1], atol=1e-9):
+            probs.append((what, 'total_propagator before diagonalisation',
+                          float(np.max(np.abs(tp - R[-1])))))
+        if p.is_cached('total_propagator_liouville'):
+            from filter_functions.superoperator import liouville_representation
+            L = liouville_representation(R[-1], p.basis)
+            if not np.allclose(p.total_propagator_liouville, L, atol=1e-9):
+                probs.append((what, 'total_propagator_liouville',
+                              float(np.max(np.abs(p.total_propagator_liouville - L)))))
+        Q = p.propagators
+        if not np.allclose(Q, R, atol=1e-9):
+            probs.append((what, 'propagators', float(np.max(np.abs(Q - R)))))
+        if not np.array_equal(p.total_propagator, Q[-1]):
+            probs.append((what, 'total propagator is not the last cumulative propagator', 0.0))
+
+    d1 = mk()
+    descs = [d1] + [mk(d1) for _ in range(int(rng.integers(1, 3)))]
+    states = [int(rng.integers(0, 4)) for _ in descs]
+    kw = [dict(), dict(omega=om), dict(calc_filter_function=True, omega=om),
+          dict(calc_pulse_correlation_FF=True, omega=om), dict(calc_filter_function=False)
+          ][int(rng.integers(0, 5))]
+    ps = [state(gens.build(dd), k) for dd, k in zip(descs, states)]
+    try:
+        ok(ff.concatenate(ps, **kw), f'concatenate states={states} kw={sorted(kw)}')
+    except ValueError as e:
+        if 'frequencies' not in str(e) and 'omega' not in str(e):
+            raise
+    ps = [state(gens.build(dd), k) for dd, k in zip(descs, states)]
+    r = ps[0]
+    for q in ps[1:]:
+        r = r @ q
+    ok(r, f'matmul states={states}')
+    G = int(rng.integers(1, 4))
+    ok(ff.concatenate_periodic(state(gens.build(d1), states[0]), G), f'concatenate_periodic G={G}')
+    d2 = mk()
+    d2['dt'] = d1['dt'].copy()
+    d2['c_coeffs'] = rng.standard_normal((2, len(d1['dt'])))
+    d2['n_coeffs'] = np.ones((1, len(d1['dt'])))
+    a, b = state(gens.build(d1), states[0]), state(gens.build(d2), states[1])
+    qa, qb = [int(x) for x in rng.permutation(3)[:2]]
+    e = ff.extend([(a, qa), (b, qb)], N=3)
+    ok(e, f'extend states={states[:2]} qubits={(qa, qb)}')
+    order = tuple(int(x) for x in rng.permutation(3))
+    e2 = state(ff.extend([(gens.build(d1), qa), (gens.build(d2), qb)], N=3), states[0])
+    ok(ff.remap(e2, order), f'remap order={order} state={states[0]}')
+    long = state(gens.build(gens.rand_desc(rng, d=2, n_dt=4, basis=('pauli',), n_n=1, n_c=2)), states[0])
+    i0 = int(rng.integers(0, 3))
+    ok(long[i0:int(rng.integers(i0 + 1, 5))], f'slice state={states[0]}')
+    ctx.count(('composed', case['seed']))
+    if probs:
+        ctx.fail('composed_propagators', case, probs, 'time-ordered product of exp(-i H_g dt_g)', {},
+                 f'propagators of a composed pulse are wrong: {probs[:3]}')
+
+
+CHECKS = {'schroedinger': check_schroedinger, 'times_composed': check_times_composed,
+          'composed_propagators': check_composed_propagators}
 
 
 def replay(ctx, check, case):
@@ -196,5 +291,7 @@ def search(ctx, deep=False):
         check_schroedinger(ctx, {'desc': desc, 'times': xs})
         if i % 5 == 0:
             check_times_composed(ctx, {'seed': int(rng.integers(0, 2**31))})
+        if i % 2 == 0:
+            check_composed_propagators(ctx, {'seed': int(rng.integers(0, 2**31))})
         if i < 2:
             ctx.sample({'d': d, 'n_dt': len(desc['dt']), 'features': feats})
